@@ -57,6 +57,7 @@ type Exec struct {
 	fset    *token.FileSet
 	// hooks
 	unitSuffix  string
+	typeRename  [2]string
 	trace       []Event
 	traceOn     bool
 	curLoopFrom int
@@ -196,6 +197,9 @@ func (ex *Exec) pkgByName(name string, from *types.Package) *types.Package {
 
 func (ex *Exec) resolveType(name string, pkg *types.Package) types.Type {
 	name = strings.TrimSpace(name)
+	if ex.typeRename[0] != "" {
+		name = strings.ReplaceAll(name, ex.typeRename[0], ex.typeRename[1])
+	}
 	if name == "" {
 		return nil
 	}
@@ -417,6 +421,9 @@ func (ex *Exec) execBody(fr *frame, st *State, guard string) (string, *State, []
 		rins = append(rins, edgeIn{nil, r.guard, r.st})
 	}
 	g, s, _ := ex.merge(rins, nil)
+	if fr.top && len(rins) > 1 && fr.contract != nil && len(fr.contract.Tracks) > 0 {
+		ex.trackAcrossMerge(fr, nil, rins, g, s)
+	}
 	nres := len(fr.rets[0].res)
 	res := make([]Val, nres)
 	for i := 0; i < nres; i++ {
@@ -597,7 +604,21 @@ func (ex *Exec) merge(ins []edgeIn, b *ssa.BasicBlock) (string, *State, []string
 			}
 		}
 		if same {
+			if pv, allPtr := mergePtrLocal(ins, k); allPtr {
+				if out.ptrs == nil {
+					out.ptrs = map[string]Val{}
+				}
+				out.ptrs[k] = pv
+			}
 			out.vars[k] = terms[0]
+			continue
+		}
+		if pv, allPtr := mergePtrLocal(ins, k); allPtr {
+			if out.ptrs == nil {
+				out.ptrs = map[string]Val{}
+			}
+			out.ptrs[k] = pv
+			out.vars[k] = "0"
 			continue
 		}
 		srt := u.keySorts[k]
@@ -925,6 +946,7 @@ func (ex *Exec) specEnv(fr *frame, cur *State, lr *loopRec) *SpecEnv {
 	}
 	for k, v := range fr.params {
 		env.vars[k] = v
+		env.vars["$arg_"+k] = v // the parameter's entry value, whatever local shadows its name
 	}
 	for k, v := range fr.specVars {
 		env.vars[k] = v
@@ -1133,6 +1155,35 @@ func (ex *Exec) instr(fr *frame, in ssa.Instruction, g string, s *State) string 
 		return g
 	case *ssa.Alloc:
 		t := deref(in.Type())
+		if isReflectValue(t) {
+			key := fmt.Sprintf("L!f%d.%s.refl", fr.id, in.Name())
+			fr.allocKey[in] = key
+			u.keySort(key, SInt)
+			s.vars[key] = "0"
+			fr.regs[in] = Val{Typ: in.Type(), Loc: &Loc{Kind: LLocal, Key: key, Typ: t}}
+			return g
+		}
+		if at, ok := t.Underlying().(*types.Array); ok && isReflectValue(at.Elem()) {
+			// the variadic operand array of reflect.Append: elements kept out of band
+			key := fmt.Sprintf("L!f%d.%s.reflarr", fr.id, in.Name())
+			fr.allocKey[in] = key
+			u.keySort(key, SInt)
+			s.vars[key] = "0"
+			fr.regs[in] = Val{Typ: in.Type(), Loc: &Loc{Kind: LLocal, Key: key, Typ: t}}
+			return g
+		}
+		if isStruct(t) && !in.Heap {
+			// a struct-typed local whose address does not escape: cells of this frame, out of reach of callees
+			key := fmt.Sprintf("L!f%d.%s", fr.id, in.Name())
+			if in.Comment != "" {
+				key += "." + in.Comment
+			}
+			fr.allocKey[in] = key
+			loc := &Loc{Kind: LLocal, Key: key, Typ: t}
+			u.storeLoc(s, loc, zeroVal(t))
+			fr.regs[in] = Val{Typ: in.Type(), Loc: loc}
+			return g
+		}
 		if isStruct(t) {
 			r := u.alloc(s, g)
 			ex.zeroInit(s, r, t)
@@ -1168,6 +1219,10 @@ func (ex *Exec) instr(fr *frame, in ssa.Instruction, g string, s *State) string 
 		}
 		if l.Kind != LLocal {
 			g = ex.assumeNonNil(g, l)
+		}
+		if l.Kind == LLocal && (val.Refl != nil || isReflectValue(l.Typ)) {
+			ex.ptrLocals(s)[l.Key] = val
+			return g
 		}
 		if l.Kind == LLocal && val.Loc != nil && val.T == "" {
 			// a pointer-valued local holding a known address: keep the Val out of band
@@ -1328,7 +1383,7 @@ func (ex *Exec) instr(fr *frame, in ssa.Instruction, g string, s *State) string 
 		if x.Loc != nil && x.Loc.Kind == LField {
 			l = &Loc{Kind: LField, Base: x.Loc.Base, Owner: x.Loc.Owner, Path: append(append([]string{}, x.Loc.Path...), f.Name()), Typ: f.Type()}
 			ownerT = ex.ownerType(x.Loc.Owner)
-		} else if x.Loc != nil && x.Loc.Kind == LElem {
+		} else if x.Loc != nil && (x.Loc.Kind == LElem || x.Loc.Kind == LLocal) {
 			l = u.sub(x.Loc, f.Name(), f.Type())
 			fr.regs[in] = Val{Typ: in.Type(), Loc: l}
 			return g
@@ -1360,6 +1415,13 @@ func (ex *Exec) instr(fr *frame, in ssa.Instruction, g string, s *State) string 
 			fr.regs[in] = Val{Typ: in.Type(), Loc: &Loc{Kind: LElem, Base: sArr(x.T), Idx: cellIdx(sOff(x.T), i.T), Owner: elemKey(xt.Elem()), Typ: xt.Elem()}}
 		case *types.Pointer:
 			at := xt.Elem().Underlying().(*types.Array)
+			if isReflectValue(at.Elem()) && x.Loc != nil && x.Loc.Kind == LLocal {
+				// element i of the operand array: a cell of its own
+				key := x.Loc.Key + "." + i.T
+				u.keySort(key, SInt)
+				fr.regs[in] = Val{Typ: in.Type(), Loc: &Loc{Kind: LLocal, Key: key, Typ: at.Elem()}}
+				return g
+			}
 			fr.regs[in] = Val{Typ: in.Type(), Loc: &Loc{Kind: LElem, Base: ex.term(x, "array pointer"), Idx: i.T, Owner: elemKey(at.Elem()), Typ: at.Elem()}}
 		default:
 			ex.failf("indexaddr on %s", typeKey(in.X.Type()))
@@ -1396,6 +1458,9 @@ func (ex *Exec) instr(fr *frame, in ssa.Instruction, g string, s *State) string 
 		v := ex.value(fr, in.Value, s)
 		g = u.define("g", SBool, and(g, not(eq(m.T, "0"))))
 		ex.mapSet(s, m, k, v)
+		if ex.traceOn {
+			ex.trace = append(ex.trace, Event{Kind: "mapupdate", Guard: g, Instr: in, St: s.clone(), Args: []Val{m, k, v}, Depth: len(ex.stack) - 1})
+		}
 		return g
 	case *ssa.Lookup:
 		x := ex.value(fr, in.X, s)
@@ -1632,6 +1697,16 @@ func (ex *Exec) sliceInstr(fr *frame, in *ssa.Slice, g string, s *State) string 
 		fr.regs[in] = Val{T: u.define(in.Name(), SSlice, mkS(sArr(x.T), plus(sOff(x.T), lo), minus(hi, lo), minus(cp, lo))), Typ: in.Type()}
 	case *types.Pointer:
 		at := xt.Elem().Underlying().(*types.Array)
+		if isReflectValue(at.Elem()) && x.Loc != nil && x.Loc.Kind == LLocal {
+			var elems []Val
+			for k := int64(0); k < at.Len(); k++ {
+				if ev, ok := ex.ptrLocals(s)[x.Loc.Key+"."+intLit(k)]; ok {
+					elems = append(elems, ev)
+				}
+			}
+			fr.regs[in] = Val{Typ: in.Type(), ReflElems: elems, T: "reflvals"}
+			return g
+		}
 		n := intLit(at.Len())
 		if hi == "" {
 			hi = n
@@ -2094,7 +2169,11 @@ func (ex *Exec) trackAcrossMerge(fr *frame, b *ssa.BasicBlock, ins []edgeIn, g s
 				okAll = false // e.g. a local named by the predicate is not live on this edge
 				break
 			}
-			ex.oblige(fmt.Sprintf("%s%s#join%d.%d:%s", shortFn(fr.fn), ex.sfx(fr), b.Index, i+1, clauseLabel(tr, ti)), "join", in.guard, t, tr.Src, ex.clauseWhere(tr))
+			bi := 9999 // the merge of the return sites
+			if b != nil {
+				bi = b.Index
+			}
+			ex.oblige(fmt.Sprintf("%s%s#join%d.%d:%s", shortFn(fr.fn), ex.sfx(fr), bi, i+1, clauseLabel(tr, ti)), "join", in.guard, t, tr.Src, ex.clauseWhere(tr))
 		}
 		if !okAll {
 			continue
@@ -2106,4 +2185,39 @@ func (ex *Exec) trackAcrossMerge(fr *frame, b *ssa.BasicBlock, ins []edgeIn, g s
 		}
 		ex.u.fact(implies(g, t))
 	}
+}
+
+// mergePtrLocal: out-of-band values (addresses, reflect handles) of local key k on all incoming edges.
+func mergePtrLocal(ins []edgeIn, k string) (Val, bool) {
+	var vs []Val
+	for _, in := range ins {
+		if in.st.ptrs == nil {
+			return Val{}, false
+		}
+		v, ok := in.st.ptrs[k]
+		if !ok {
+			return Val{}, false
+		}
+		vs = append(vs, v)
+	}
+	same := true
+	for _, v := range vs[1:] {
+		if v.Refl != vs[0].Refl || v.T != vs[0].T || v.Loc != vs[0].Loc {
+			same = false
+		}
+	}
+	if same {
+		return vs[0], true
+	}
+	if vs[0].Refl == nil {
+		return Val{}, false
+	}
+	c := &reflVal{Kind: "choice"}
+	for i, v := range vs {
+		if v.Refl == nil {
+			return Val{}, false
+		}
+		c.Alts = append(c.Alts, reflAlt{ins[i].guard, v})
+	}
+	return Val{Typ: vs[0].Typ, Refl: c}, true
 }
